@@ -376,6 +376,32 @@ def run(tier="quick"):
     from ..confrules import case_label_of
     OPEN = {ord("}"): ord("{"), ord(")"): ord("("), ord("]"): ord("["), ord(">"): ord("<")}
     scans = {}
+    # a closer held in a local (closer = '}' / ')' / 0, chosen by the opener): every non-zero constant it is ever given is a
+    # closing bracket
+    closer_vars = {}
+    for d_, v_ in f.vardecls.items():
+        if v_.get("tp") or (v_.get("tw") or 0) > 32:
+            continue
+        vals_ = []
+        okc = True
+        for x in walk(f.body):
+            if x.get("k") == "assign" and (X.strip(x["ch"][0]) or {}).get("d") == d_:
+                cv_ = X.const_val(x["ch"][1]) if x.get("op") == "=" else None
+                if cv_ is None:
+                    okc = False
+                else:
+                    vals_.append(cv_)
+            elif x.get("k") == "un" and x.get("op") in ("++", "--", "&") and (X.strip(x["ch"][0]) or {}).get("d") == d_:
+                okc = False
+        if v_.get("init") is not None:
+            cv_ = X.const_val(v_["init"])
+            if cv_ is None:
+                okc = False
+            else:
+                vals_.append(cv_)
+        nz_ = [c_ for c_ in vals_ if c_ != 0]
+        if okc and nz_ and all(c_ in OPEN for c_ in nz_):
+            closer_vars[d_] = sorted(set(nz_))
     for lp in walk(main.get("body") or {}):
         if lp.get("k") not in ("for", "while") or lp.get("cond") is None or lp is main:
             continue
@@ -387,6 +413,9 @@ def run(tier="quick"):
                         lab = case_label_of(f, lp)
                         if lab is not None and lab.get("k") == "case" and X.const_val(lab["val"]) == OPEN[kv]:
                             scans[cj["i"]] = (lp, kv)
+                    sb_ = X.strip(b_)
+                    if kv is None and sb_ is not None and sb_.get("k") == "ref" and sb_.get("d") in closer_vars and nulcursor.byte_expr(a_, cursors) == (pb, 0):
+                        scans[cj["i"]] = (lp, ("var", sb_["d"]))
 
     def v8_transfer(st, n, blk):
         if not st:
@@ -414,9 +443,17 @@ def run(tier="quick"):
             # a test of the byte under the cursor while the cursor is known to stand on the closer: one outcome is impossible
             for a_, b_ in ((c["ch"][0], c["ch"][1]), (c["ch"][1], c["ch"][0])):
                 k2 = X.const_val(b_)
+                sb_ = X.strip(b_)
+                if k2 is None and sb_ is not None and sb_.get("k") == "ref" and sb_.get("d") in closer_vars:
+                    k2 = ("var", sb_["d"])
                 if k2 is not None and nulcursor.byte_expr(a_, cursors) == (pb, 0):
                     says_equal = (c["op"] == "==") == truth
-                    return frozenset(x for x in st if x[1] != 0 or ((scans[x[2]][1] == k2) == says_equal))
+
+                    def same(kv_, k2=k2):
+                        if isinstance(kv_, tuple) or isinstance(k2, tuple):
+                            return kv_ == k2 if (isinstance(kv_, tuple) and isinstance(k2, tuple)) else None
+                        return kv_ == k2
+                    return frozenset(x for x in st if x[1] != 0 or same(scans[x[2]][1]) is None or (same(scans[x[2]][1]) == says_equal))
         return st
     reread = []
 
@@ -428,10 +465,12 @@ def run(tier="quick"):
     flow.forward(cfg, frozenset(), v8_transfer, refine=v8_refine, join=lambda a, b: a | b, visit=v8_visit)
     for cid, (lp, kv) in sorted(scans.items()):
         bad = [r for r in reread if r[1] == cid]
-        chk.ob("V8", f.name, "closer-consumed:%s" % chr(kv), not bad, loc=f.loc(lp),
+        kname = chr(kv) if not isinstance(kv, tuple) else "/".join(chr(c_) for c_ in closer_vars[kv[1]])
+        oname = chr(OPEN[kv]) if not isinstance(kv, tuple) else "/".join(chr(OPEN[c_]) for c_ in closer_vars[kv[1]])
+        chk.ob("V8", f.name, "closer-consumed:%s" % kname, not bad, loc=f.loc(lp),
                detail="%s: after a reference opened by '%s' was scanned up to its '%s', the main loop resumes AT that '%s': the closing "
                       "bracket is copied to the result as ordinary text, so the text after the reference is not preserved "
-                      "(\"${HOME}/x\" expands to \"/home/u}/x\")" % (f.name, chr(OPEN[kv]), chr(kv), chr(kv)),
+                      "(\"${HOME}/x\" expands to \"/home/u}/x\")" % (f.name, oname, kname, kname),
                proof="on every path from the scan's exit on the closer to the main loop's next read the cursor has moved past it")
     chk.count("bracketed_reference_scans", len(scans), floor=2)
     # ---- V9 the bounded copy the expansion relies on terminates what it wrote: every return of spiftool_safe_strncpy that is
